@@ -1640,6 +1640,17 @@ impl Linearizer {
         bounds.apply_to_domain(&mut domain);
         let mut context = Linearizer::new_from_with_bounds(constraints, domain, bounds);
         context.enforce_derived_boolean_bounds()?;
+        if context.bounds.has_unsatisfiable_range() {
+            // lowering rules prune with the derived ranges, a range no value
+            // satisfies is not publishable as a domain, so the infeasibility it
+            // proves is stated by a row
+            context.emit_constraint(
+                Exp::Number(0.0),
+                Comparison::Equal,
+                Exp::Number(1.0),
+                String::new(),
+            )?;
+        }
         let objective_type = objective.objective_type.clone();
         let objective_exp = objective.rhs.flatten().simplify();
         let objective_requirement = match &objective_type {
